@@ -41,6 +41,7 @@ def run(ctx):
     ctx.trusted += ["LAPACK / scipy.linalg.eigh are oracles judged per returned vector", "Interval library for exp enclosures", "the test matrices' entries are the doubles computed by numpy from the exact spectrum (their rounding is inside the tolerances)"]
     ctx.assumptions += ["tolerances: eigen-equation residual 2^-22 of its absolute terms, duality / parallelism 2^-14, closed forms 2^-16 relative; spectra restricted to exp(-(E_max - E_0)(T - t0)) >= 1e-6 so that all states are resolved in double precision"]
     ctx.copy_props()
+    common.tie_pycore(ctx, ["Tie_sortvec.v"])
 
     cases = []
     ncase = 14 if quick else 200
